@@ -27,9 +27,12 @@ Sp(L) == IF L.sp = "wide" THEN <<W("  ")>> ELSE <<W(" ")>>
 \* after a comma / colon
 Sep(L) == IF L.sp = "tight" THEN <<>> ELSE <<W(" ")>>
 
-\* all binary operators group from the left
+\* all binary operators group from the left; a sign (unary - / +) binds tighter than any
+\* binary operator, so a signed left operand needs no parentheses (except under ^,
+\* where conventions differ and the property is silent)
 NeedsParens(child, parentOp, side) ==
-    \/ child.k \in {"cond", "un", "test"}
+    \/ child.k \in {"cond", "test"}
+    \/ child.k = "un" /\ ~(child.op \in {"-", "+"} /\ side = "left" /\ parentOp # "^")
     \/ child.k = "bin" /\ ( Prec(child.op) < Prec(parentOp)
                           \/ (Prec(child.op) = Prec(parentOp) /\ side = "right") )
 
